@@ -546,7 +546,8 @@ class SDoc(Sym):
         return self is other
 
     def sym_truth(self, ex):
-        raise Unsupported("truthiness of a document handle")
+        # a mapping is truthy iff it is not empty: nothing the handle's identity depends on
+        return z3.Bool(ex.fresh_name("document_is_not_empty"))
 
     def sym_type(self, ex):
         # type(document): the dependency class; calling it opens another handle (write_concern is False unless asked for)
